@@ -1,0 +1,14 @@
+//go:build verif
+
+package wal
+
+// VerifSyncGate, when set, is called by the sync goroutine of every WAL at the start of a sync
+// round (after the first pending sync request was received, before the round's requests are
+// drained and the segment is flushed). A harness may block in it to control when a round runs.
+var VerifSyncGate func(walPath string, lastAppended int64, lastSynced int64)
+
+func verifSyncGate(t *wal) {
+	if g := VerifSyncGate; g != nil {
+		g(t.walPath, t.lastAppendedOffset.Load(), t.lastSyncedOffset.Load())
+	}
+}
